@@ -11,3 +11,9 @@ package probing
 //@   ensures [C17] result1 == nil && selector.Selector != nil ==> dyntype(result0) == typetag("*package-operator.run/pkg/probing.LabelSelector") && asptr("package-operator.run/pkg/probing.LabelSelector", ival(result0)).Selector == lsAsSelector(selector.Selector)
 //@   ensures [C17] result1 == nil && selector.Selector == nil && selector.Kind != nil ==> dyntype(result0) == typetag("*package-operator.run/pkg/probing.GroupKindSelector") && asptr("package-operator.run/pkg/probing.GroupKindSelector", ival(result0)).GroupKind.Group == asptr("package-operator.run/apis/core/v1alpha1.PackageProbeKindSpec", selector.Kind).Group && asptr("package-operator.run/pkg/probing.GroupKindSelector", ival(result0)).GroupKind.Kind == asptr("package-operator.run/apis/core/v1alpha1.PackageProbeKindSpec", selector.Kind).Kind
 //@   ensures [C17] result1 == nil && selector.Selector == nil && selector.Kind == nil ==> result0 == probe
+
+// Whatever the probe list looks like (one probe, several, none), what ParseProbes returns is the generation guard
+// around it: a status that lags metadata.generation never passes.
+//@ func package-operator.run/internal/probing.ParseProbes
+//@   assigns mem
+//@   ensures [C03,C17] result1 == nil ==> dyntype(result0) == typetag("*package-operator.run/pkg/probing.ObservedGenerationProbe") && result0 != nil
